@@ -21,13 +21,20 @@ OPS = "+*-"
 NAMES = {"+": "p", "*": "m", "-": "s"}
 
 
-def grammar(k, pmarks, tmarks, nmark=False):
+def grammar(k, pmarks, tmarks, nmark=False, layout=False):
     ops = OPS[:k]
     alts = [f"E {NAMES[o]} E" + (" {dynamic}" if pm else "")
             for o, pm in zip(ops, pmarks)]
     # the atom production is reduced in conflict-free states
     lines = ["E: " + " | ".join(alts) + " | n" + (" {dynamic}" if nmark else "")
-             + ";", "terminals"]
+             + ";"]
+    if layout:
+        # a LAYOUT rule makes the parser run a sub-parser between tokens;
+        # the filter belongs to the main parse only
+        lines.append("LAYOUT: sp | EMPTY;")
+    lines.append("terminals")
+    if layout:
+        lines.append("sp: /\\s+/;")
     for o, tm in zip(ops, tmarks):
         lines.append(f'{NAMES[o]}: "{o}"' + (" {dynamic}" if tm else "") + ";")
     lines.append('n: "n";')
@@ -50,6 +57,9 @@ def units(tier, seed):
             spaces.window(len(marks), win[0], win[1]))
         for i in idxs:
             out.append(dict(k=k, maxops=row["maxops"], marks=list(marks[i])))
+            if k == 2:
+                out.append(dict(k=k, maxops=min(3, row["maxops"]),
+                                marks=list(marks[i]), layout=True))
     return out
 
 
@@ -206,17 +216,23 @@ def run_unit(u):
     k = u["k"]
     pmarks, tmarks = u["marks"][:k], u["marks"][k:2 * k]
     nmark = u["marks"][2 * k]
-    text = grammar(k, pmarks, tmarks, nmark)
+    layout = bool(u.get("layout"))
+    text = grammar(k, pmarks, tmarks, nmark, layout)
+
+    def inp(s):
+        # with a LAYOUT rule: layout before, between and after the tokens
+        return " " + "  ".join(s) + " " if layout else s
     mon = Monitor()
     judge = Judge(PROP, KNOWN)
     st = collections.Counter()
     ops = OPS[:k]
     exprs = ["".join(t) for t in expressions(ops, u["maxops"], depth=0)]
-    cfg = f"k{k}/" + "".join("1" if m else "0" for m in u["marks"])
+    cfg = f"k{k}/" + "".join("1" if m else "0" for m in u["marks"]) + (
+        "/layout-rule" if layout else "")
     gk = text
 
     def case(kind, s, filt):
-        return {"grammar": text, "parser": kind, "input": s, "filter": filt,
+        return {"grammar": text, "parser": kind, "input": inp(s), "filter": filt,
                 "options": {"ws": ""}}
 
     plain_glr = build("glr", grammar_from_string(text), mon, tag="pg", ws="")
@@ -230,8 +246,8 @@ def run_unit(u):
         rejected_marked = rej is not None and gg.productions[rej].dynamic
         for s in exprs:
             rec.calls = []
-            o = parse(p, s, mon)
-            o0 = parse(plain_glr, s, mon)
+            o = parse(p, inp(s), mon)
+            o0 = parse(plain_glr, inp(s), mon)
             st["evaluations"] += 1
             probs = discipline(rec.calls, gg)
             if o0.kind != "ok":
@@ -293,7 +309,7 @@ def run_unit(u):
     if p is not None:
         for s in exprs:
             rec.calls = []
-            o = parse(p, s, mon)
+            o = parse(p, inp(s), mon)
             st["evaluations"] += 1
             probs = discipline(rec.calls, gg)
             nops = sum(1 for ch in s if ch in ops)
@@ -326,7 +342,7 @@ def run_unit(u):
         opchar = [o_ for o_, nme in NAMES.items() if nme == opname][0]
         for s in exprs:
             rec.calls = []
-            o = parse(p, s, mon)
+            o = parse(p, inp(s), mon)
             st["evaluations"] += 1
             probs = discipline(rec.calls, gg)
             # whatever happens (a result, SyntaxError, a conflict error, even
@@ -356,7 +372,7 @@ def run_unit(u):
                               ws="", dynamic_filter=prec_filter(table, gg), **kw)
                     for s in exprs:
                         want = parse_expr(list(s), table)
-                        o = parse(p, s, mon)
+                        o = parse(p, inp(s), mon)
                         st["evaluations"] += 1
                         st["nontrivial"] += 1
                         if kind == "lr":
@@ -388,7 +404,7 @@ def run_unit(u):
                           dynamic_filter=shape_filter(table))
                 for s in exprs:
                     want = parse_expr(list(s), table)
-                    o = parse(p, s, mon)
+                    o = parse(p, inp(s), mon)
                     st["evaluations"] += 1
                     st["nontrivial"] += 1
                     if o.kind == "ok":
